@@ -116,6 +116,10 @@ type C12Plan struct {
 	DowntimeH      int  `json:"downtime_h"`      // wall-clock time that passes before the restart
 	Crash2         int  `json:"crash2"`          // >0: second crash before the Crash2-th mutating step after the restart (boot + cycle 1)
 	RestartBetween bool `json:"restart_between"` // orderly restart between cycles even without a crash
+	// CopyLatencyMs > 0: promoting a copied file into the cold tier takes this
+	// much simulated time, so that successive migrations get distinct
+	// (second-resolution) migrated_at stamps as they do with real object stores.
+	CopyLatencyMs int `json:"copy_latency_ms,omitempty"`
 }
 
 var faultClasses = []string{
@@ -190,6 +194,9 @@ func genC12(r *simrt.Rand, tier string) any {
 	}
 	if r.Chance(15) {
 		p.Faults = append(p.Faults, Fault{Cycle: 1, Class: "hot.walk.dir", Nth: 1, Err: "eio"})
+	}
+	if r.Chance(40) {
+		p.CopyLatencyMs = []int{700, 1500, 4000}[r.Intn(3)]
 	}
 	return p
 }
@@ -563,6 +570,10 @@ func (w *world) install() {
 				}
 				return simrt.FSAction{Crash: 1}
 			}
+		}
+		if w.p.CopyLatencyMs > 0 && class == "cold.rename.part" {
+			simrt.Count("probe.copy_latency_applied", 1)
+			simrt.Sleep(time.Duration(w.p.CopyLatencyMs) * time.Millisecond)
 		}
 		if f := w.faultFor(class); f != nil {
 			w.faultsHit++
